@@ -267,6 +267,18 @@ Example C14_example_repaired :
      = [None; Some AttrErr; None; Some AttrErr].
 Proof. vm_compute. repeat split; eexists; reflexivity. Qed.
 
+(* RETURNING on statements with ON / USING / CROSS joins (C14-returning-join-without-criterion, repaired): fields of the
+   target table and of every joined table are accepted, fields of other tables and aggregates rejected *)
+Example C14_example_returning_joins :
+  let tc := mkPT "c" None None in
+  let prefix := [QUpdate ta; QJoin (TTab tb) (JUsing 1); QJoin (TTab tc) JCross; QSet] in
+  let calls := prefix ++ [QReturning [RField (Some ta) "x"]; QReturning [RField (Some tb) "y"; RField (Some tc) "z"];
+                          QReturning [RArith (RField (Some ta) "x") (RField (Some tc) "z")];
+                          QReturning [RField (Some tzz) "y"]; QReturning [RFn FAgg [RField (Some tb) "y"]]; QRender] in
+  hist_ok (fun s c => wf_q s c && frag_q s c) step_q (q_init QPostgres) calls = true
+  /\ snd (run step_q (q_init QPostgres) calls) = [None; None; None; None; None; None; None; Some QueryExc; Some QueryExc; None].
+Proof. vm_compute. split; reflexivity. Qed.
+
 Example C14_example_returning :
   let t1 := RFn FPlain [RFn FAgg [RField (Some ta) "x"]; RConst] in     (* COALESCE(SUM(a.x), 0): aggregate *)
   let t2 := RFn FPlain [RField (Some ta) "x"; RConst] in                (* own table *)
